@@ -76,7 +76,7 @@ PROPS = {
         "oracles": ["feemult"],
     },
     "C01": {
-        "modules": ["C01", "C01Seal"],
+        "modules": ["C01", "C01Seal", "C01Whole"],
         "streams": [{"name": "apply", "quick": 150, "thorough": 6400}, {"name": "seal", "quick": 150, "thorough": 6400}, {"name": "chain", "quick": 60, "thorough": 2400}],
         "projection": "supply",
         "oracles": ["conservation"],
@@ -137,7 +137,7 @@ PROPS = {
         "assumptions": ["the content-addressed store is not modelled: fromBlock is given the tree contents the header's roots denote"],
     },
     "C13": {
-        "modules": ["C13"],
+        "modules": ["C13", "C13Life"],
         "streams": [{"name": "stake", "quick": 180, "thorough": 6400}, {"name": "apply", "quick": 90, "thorough": 3200}, {"name": "chain", "quick": 60, "thorough": 2400},
                     {"name": "confirm", "quick": 60, "thorough": 3200}],
         "projection": "stakes",
@@ -153,7 +153,7 @@ PROPS = {
         "assumptions": ["MelPoW verification is a parameter: the verdict for the puzzle (header at the coin's height, coin id) is computed by the harness from the specification with the real melpow and shipped to the model"],
     },
     "C19": {
-        "modules": ["C19"],
+        "modules": ["C19", "C19Life"],
         "streams": [{"name": "faucet", "quick": 180, "thorough": 6400}, {"name": "apply", "quick": 90, "thorough": 3200}, {"name": "chain", "quick": 60, "thorough": 2400}],
         "projection": "coins_after_batch",
         "oracles": ["faucet"],
